@@ -594,7 +594,7 @@ fn cp_record(acc: &mut Acc, h: &History, j: &CpJob, out: CpOut) {
                 format!("checkpoint-admit:{}:{}", j.field, j.kind),
                 json!({"case": case.json(), "extra": "add_checkpoint admitted a checkpoint that is not the chain's state at its coordinate"}),
             );
-            acc.outcome("VIOLATION:checkpoint-admitted");
+            acc.outcome("oracle-fail:checkpoint-admitted");
         }
         CpOut::Verdict(v) => {
             if j.genuine {
@@ -817,7 +817,7 @@ fn btr_record(acc: &mut Acc, h: &History, j: &BtrJob, out: BtrOut) {
     match out {
         BtrOut::Panic(msg) => {
             acc.violation(format!("validate_btr-panic:{}:{}", j.field, j.kind), json!({"case": case.json(), "panic": msg}));
-            acc.outcome("VIOLATION:panic");
+            acc.outcome("oracle-fail:panic");
         }
         BtrOut::Rejected(name) => {
             acc.outcome(&format!("typed_error:validate_btr:{name}"));
@@ -839,7 +839,7 @@ fn btr_record(acc: &mut Acc, h: &History, j: &BtrJob, out: BtrOut) {
                 format!("validate_btr:{}:{}", j.field, j.kind),
                 json!({"case": case.json(), "extra": "validate_btr accepted a record that differs from the authoritative segment"}),
             );
-            acc.outcome("VIOLATION:different-result-accepted");
+            acc.outcome("oracle-fail:different-result-accepted");
         }
     }
 }
@@ -1500,7 +1500,7 @@ pub fn suffix(acc: &mut Acc, h: &History, _base: &Baseline, prm: &Params) {
                         match mc::catch(|| import_suffix(&req, &actx)) {
                             Err(msg) => {
                                 acc.violation(format!("import_suffix-panic:{}:{}", m.field, m.kind), json!({"case": case.json(), "panic": msg}));
-                                acc.outcome("VIOLATION:panic");
+                                acc.outcome("oracle-fail:panic");
                             }
                             Ok(res) => {
                                 if matches!(res.admission.outcome, WitnessedSuffixAdmissionOutcome::Obstructed { .. }) {
@@ -1524,7 +1524,7 @@ pub fn suffix(acc: &mut Acc, h: &History, _base: &Baseline, prm: &Params) {
                                         format!("import_suffix:{}:{}", m.field, m.kind),
                                         json!({"case": case.json(), "extra": "import_suffix classified an altered bundle as something other than obstructed, with a result different from the original", "outcome": variant_name(&res.admission.outcome)}),
                                     );
-                                    acc.outcome("VIOLATION:different-result-accepted");
+                                    acc.outcome("oracle-fail:different-result-accepted");
                                 }
                             }
                         }
@@ -1545,7 +1545,7 @@ pub fn suffix(acc: &mut Acc, h: &History, _base: &Baseline, prm: &Params) {
                         match mc::catch(|| evaluate_witnessed_suffix_admission(&areq, &actx)) {
                             Err(msg) => {
                                 acc.violation(format!("evaluate_witnessed_suffix_admission-panic:{}:{}", field, m.kind), json!({"case": case.json(), "panic": msg}));
-                                acc.outcome("VIOLATION:panic");
+                                acc.outcome("oracle-fail:panic");
                             }
                             Ok(res) => {
                                 if matches!(res.outcome, WitnessedSuffixAdmissionOutcome::Obstructed { .. }) {
@@ -1564,7 +1564,7 @@ pub fn suffix(acc: &mut Acc, h: &History, _base: &Baseline, prm: &Params) {
                                         format!("evaluate_witnessed_suffix_admission:{}:{}", field, m.kind),
                                         json!({"case": case.json(), "extra": "an altered shell was classified as something other than obstructed", "outcome": variant_name(&res.outcome)}),
                                     );
-                                    acc.outcome("VIOLATION:different-result-accepted");
+                                    acc.outcome("oracle-fail:different-result-accepted");
                                 }
                             }
                         }
@@ -1651,7 +1651,7 @@ pub fn retained(acc: &mut Acc, h: &History, base: &Baseline, prm: &Params, r: &R
                     let case = Case { h, phase: "retained", pos: format!("entry#{pos}"), field: "payload-bytes", kind: "bitflip", detail: &d };
                     acc.nontrivial.push(case.key());
                     acc.violation("decode-panic:payload-bytes:bitflip".to_owned(), json!({"case": case.json(), "panic": msg}));
-                    acc.outcome("VIOLATION:panic");
+                    acc.outcome("oracle-fail:panic");
                 }
                 Ok(Err(name)) => {
                     *decode_errors.entry(name).or_insert(0) += 1;
